@@ -1,48 +1,8 @@
 import Resgate.Proofs.Close
+import Resgate.Proofs.Collector
 import Resgate.Gw.Conn
 
 namespace Resgate.Gw
-
-/-! ### the map-range order is a permutation -/
-
-theorem perm_cons_eraseIdx {α} (l : List α) (i : Nat) (x : α) (h : l[i]? = some x) :
-    List.Perm l (x :: l.eraseIdx i) := by
-  induction l generalizing i with
-  | nil => simp at h
-  | cons a r ih =>
-    cases i with
-    | zero => simp at h; subst h; exact List.Perm.refl _
-    | succ j =>
-      simp only [List.getElem?_cons_succ] at h
-      simp only [List.eraseIdx_cons_succ]
-      exact (List.Perm.cons a (ih j h)).trans (List.Perm.swap x a _)
-
-theorem shuffle_go_perm {α} (fuel seed : Nat) (l acc : List α) :
-    List.Perm (shuffle.go fuel seed l acc) (acc.reverse ++ l) := by
-  induction fuel generalizing seed l acc with
-  | zero => unfold shuffle.go; exact List.Perm.refl _
-  | succ n ih =>
-    unfold shuffle.go
-    split
-    · exact List.Perm.refl _
-    · simp
-    · rename_i l' f1 l2 f hf hx
-      have hf' : f = n := by omega
-      subst hf'
-      simp only
-      split
-      · next x hx =>
-        refine (ih _ _ _).trans ?_
-        rw [List.reverse_cons, List.append_assoc]
-        exact List.Perm.append_left _ (perm_cons_eraseIdx _ _ _ hx).symm
-      · exact List.Perm.refl _
-
-theorem shuffle_perm {α} (seed : Nat) (l : List α) : List.Perm (shuffle seed l) l := by
-  cases l with
-  | nil => unfold shuffle; exact List.Perm.refl _
-  | cons a r =>
-    unfold shuffle
-    simpa using shuffle_go_perm (a :: r).length seed (a :: r) []
 
 /-- `orderedList` for a plain map range: a permutation of its argument; only the order counter
     of the state changes. -/
